@@ -15,8 +15,9 @@ EXPLANATION = (
     "structural `/`, every wildcard is unbounded; (order) Text and Fragment conjunction concatenate left-then-right, "
     "repeated(n) yields n copies; (disj) a disjunction of invariants is invariant only when the operands are equal; the "
     "fold operators are those of C10.ops; TextVariance::from maps an invariant to its text.  That the invariant text of a "
-    "built glob is matched by it follows from C01.leaf (a literal matches exactly its escaped text) and is not decided.")
-RULES = "C11.sound (TABLE on a catalogue: verdict vs. language), C11.leaf (TABLE), C11.order (EFFECT), C11.disj (TABLE), C11.convert (TABLE)"
+    "built glob is matched by it follows from C01.leaf (a literal matches exactly its escaped text) and is not decided.  "
+    "(kinds, shared with C19) an owned glob keeps its compiled program and rebuilds its tree, so the text it reports is that of the rebuilt tree: the conversion keeps every leaf, the case flag of a literal included.")
+RULES = "C11.sound (TABLE on a catalogue: verdict vs. language), C11.leaf (TABLE), C11.order (EFFECT), C11.disj (TABLE), C11.convert (TABLE), C19.kinds (TABLE: an owned glob keeps the leaves of its tree, case flags included)"
 
 VAR = "token::variance::Variance"
 BND = "token::variance::Boundedness"
@@ -81,6 +82,10 @@ def run(ctx):
     rule_convert(F, R)
     from . import exhaust
     exhaust.report_query(F, R, "C11.sound", ctx.tier, "text", 5000, 200)
+    # an owned glob (into_owned, FromStr) keeps the compiled program and rebuilds its tree: the text it reports is that
+    # of the rebuilt tree, so the conversion must keep every leaf as it is (case flag included) - C19.kinds
+    from . import c19
+    c19.rule_kinds(F, R)
 
 
 def rule_leaf(F, R):
